@@ -352,7 +352,7 @@ func SetSpelling(acts []Action, raws []map[string]any, bz []byte) {
 	}
 	for i := range acts {
 		switch acts[i].A {
-		case "CreateFixed", "CreateBatch", "Cancel", "Bid", "Modify", "MsgAddAllowed", "Query":
+		case "CreateFixed", "CreateBatch", "Cancel", "Bid", "Modify", "MsgAddAllowed", "AddAllowed", "Query":
 			if (int(x>>8)+i)%2 == 0 && !acts[i].Upper {
 				acts[i].Upper = true
 				raws[i]["upper"] = true
